@@ -154,6 +154,88 @@ def run_case(case):
             return ('peer sent its response and A-ABORT(%d, %d) in one segment and closed; the requestor surfaces %r %r'
                     % (src, rsn, e, (getattr(e, 'source', None), getattr(e, 'reason_diag', None))))
         return None
+    if kind == 'raw-peer-release':
+        # the peer (not this library) releases the association: instead of answering the n-th request ('during') or right
+        # after answering it ('between').  The requestor must surface AssociationReleasedError; leaving the context manager
+        # through that error must abort: A-ABORT on the wire, the peer is not left waiting.
+        import socket, threading
+        from pynetdicom2 import fsm, pdu
+        from . import scen
+        a, b = socket.socketpair()
+        done = {'types': [], 'eof': False}
+
+        def peer():
+            try:
+                buf = b''
+                b.settimeout(8)
+
+                def read_pdu():
+                    nonlocal buf
+                    while True:
+                        fr = s3.frames(buf)
+                        if fr:
+                            buf = buf[len(fr[0][1]):]
+                            return fr[0]
+                        d = b.recv(65536)
+                        if not d:
+                            return None
+                        buf += d
+                read_pdu()                                               # A-ASSOCIATE-RQ
+                ac = pdu.AAssociateAcPDU('SRV', 'CLI', [pdu.ApplicationContextItem('1.2.840.10008.3.1.1.1'),
+                     pdu.PresentationContextItemAC(1, 0, pdu.TransferSyntaxSubItem('1.2.840.10008.1.2.1')),
+                     pdu.UserInformationItem([__import__('pynetdicom2').userdataitems.MaximumLengthSubItem(16384)])])
+                b.sendall(ac.encode())
+                for k in range(1, case['when'] + 1):
+                    read_pdu()                                           # C-ECHO-RQ number k
+                    if k < case['when'] or case['point'] == 'between':
+                        b.sendall(b''.join(p.encode() for p in scen.echo_rsp(k).encode(1, 16384)))
+                b.sendall(pdu.AReleaseRqPDU().encode())
+                while True:
+                    x = read_pdu()
+                    if x is None:
+                        done['eof'] = True
+                        break
+                    done['types'].append(x[0])
+                    if x[0] == 7:
+                        break                    # aborted: a peer closes its side now
+                b.close()
+            except Exception as e:  # pylint: disable=broad-except
+                done['peer_exc'] = e
+        t = threading.Thread(target=peer)
+        tee = s3.Tee(a)
+        with s3._LOCK:
+            saved = fsm.socket
+            fsm.socket = s3.PairSocketModule(tee)
+            t.start()
+            got = {'answers': 0}
+            try:
+                try:
+                    with cli.request_association({'aet': 'SRV', 'address': 'x', 'port': 0}) as assoc:
+                        fsm.socket = saved
+                        for k in range(1, case['when'] + 2):
+                            echo(assoc, k)
+                            got['answers'] += 1
+                except BaseException as e:  # pylint: disable=broad-except
+                    got['exc'] = e
+            finally:
+                fsm.socket = saved
+        t.join(12)
+        try:
+            b.close()
+        except OSError:
+            pass
+        e = got.get('exc')
+        want = case['when'] - (1 if case['point'] == 'during' else 0)
+        if not isinstance(e, exceptions.AssociationReleasedError):
+            return 'peer released the association %s exchange %d; the requestor surfaces %r' % (case['point'], case['when'], e)
+        if got['answers'] != want:
+            return '%d exchanges answered before the release surfaced, %d expected' % (got['answers'], want)
+        after = [t_ for t_ in done['types'] if t_ != 4]
+        if after != [7]:
+            return ('the requestor left the association through AssociationReleasedError; the peer then saw PDUs %r%s '
+                    '(A-ABORT expected: leaving through an error aborts)'
+                    % (done['types'], ' and the connection closing' if done['eof'] else ' and nothing more within 8 s: it is left waiting'))
+        return None
     if kind == 'exit':
         how = case['how']
 
@@ -237,6 +319,9 @@ def run(chk):
             cases.append({'kind': 'requestor-abort', 'reason': reason, 'when': when})
     for src, rsn in [(0, 0), (2, 1), (2, 6), (0, 255), (1, 7)] + [(rnd.randrange(3), rnd.randrange(256)) for _ in range(2)]:
         cases.append({'kind': 'raw-peer-abort', 'source': src, 'reason': rsn})
+    for when in (1, 2):
+        for point in ('during', 'between'):
+            cases.append({'kind': 'raw-peer-release', 'when': when, 'point': point})
     for how in ('normal', 'ValueError', 'custom', 'class-not-supported', 'event-handling', 'timeout'):
         for when in (1, 2):
             cases.append({'kind': 'exit', 'how': how, 'when': when})
